@@ -19,7 +19,8 @@ RULE = (
     "let bindings and list items inside expanded containers (also multi-line blocks, so nesting and size grow), rename binding heads, replace integer and "
     "simple string literals, replace the value of a one-line binding by one of 46 one-line values in canonical form (empty list/set as call arguments, operators, lambdas, paths, selects…), insert own-line `#` comments above an item and single blank lines between items.  These keep every line's indentation and the "
     "expanded/inline choice, which RFC 0166 preserves, and lines stay below 100 columns.  A second generator prints package-idiom files with the C05 document "
-    "printer restricted to the shapes witnessed by the fixtures.  Oracle: rebuild(parse(K)) == K byte for byte (final newline included) and the in-process CLI "
+    "printer restricted to the shapes witnessed by the fixtures; a third prints nixpkgs-style file heads (lambda head, `with …;` / `assert …;` statements "
+    "separated by single blank lines, optional own-line comments, package body).  Oracle: rebuild(parse(K)) == K byte for byte (final newline included) and the in-process CLI "
     "`test` says OK/0.  Non-trivial = >=3 transformations and >=1 comment or blank line in the file."
 )
 ASSUMPTIONS = [
@@ -231,11 +232,17 @@ def transform(r: random.Random, text: str, counter: list):
                 ap = next((c for c in n.children if c.type == "attrpath"), None)
                 if ap is not None and ap.children and ap.children[0].type == "identifier" and len(ap.children) == 1:
                     heads.append(ap.children[0])
+                elif ap is not None and len(ap.children) > 1:
+                    # any bare segment of a dotted name (the family it belonged to simply becomes another one)
+                    heads.extend(c for c in ap.children if c.type == "identifier")
         if not heads:
             return text, None
         h = r.choice(heads)
         counter[0] += 1
         new = r.choice(_FRESH) + str(counter[0])
+        if r.random() < 0.25:
+            # a name that has to be quoted (non-ASCII, space, dot, hyphen-digit): canonical as written
+            new = '"' + r.choice(["café-müller", "日本", "x y", "a.b", "1st", "ελληνικά"]) + str(counter[0]) + '"'
         b = tree.src
         return (b[: h.start_byte] + new.encode() + b[h.end_byte :]).decode(), kind
     return text, None
@@ -271,6 +278,30 @@ def judge(text):
     return fails
 
 
+def idiom(r):
+    """nixpkgs-style file head: lambda head, then `with …;` / `assert …;` statements separated by single blank lines
+    (optionally an own-line comment in front of one of them), then a package body."""
+    head = r.choice(["{ lib, stdenv }:", "{ lib, stdenv, fetchurl }:", "{\n  lib,\n  stdenv,\n  fetchurl,\n  ...\n}:", "{ pkgs, ... }:", "pkgs:"])
+    stmts = []
+    for _ in range(r.randint(1, 3)):
+        stmts.append(r.choice(["with lib;", "with pkgs;", "assert stdenv.isLinux;", "assert enableFoo -> foo != null;", "assert lib.assertMsg ok \"message\";"]))
+    body = r.choice([
+        "stdenv.mkDerivation {\n  pname = \"x\";\n  version = \"1.0\";\n}",
+        "stdenv.mkDerivation rec {\n  pname = \"x\";\n  version = \"1.0\";\n\n  meta = with lib; {\n    license = licenses.mit;\n  };\n}",
+        "{\n  a = 1;\n  b = [ 1 2 ];\n}",
+        "buildPythonPackage {\n  pname = \"x\";\n\n  doCheck = false;\n}",
+    ])
+    parts = [head]
+    blank = r.random() < 0.7  # one style per file: statements separated by blank lines, or directly below each other
+    for st_ in stmts + [body]:
+        if blank:
+            parts.append("")
+        if r.random() < 0.25:
+            parts.append(r.choice(["# needed on darwin", "# see issue 42", "# TODO: drop"]))
+        parts.append(st_)
+    return "\n".join(parts) + "\n"
+
+
 def replay(case):
     return judge(case["text"])
 
@@ -303,7 +334,10 @@ def run_shard(sh):
             return
         sh.now(n)
         r = random.Random(n)
-        if r.random() < 0.2:
+        if r.random() < 0.12:
+            text = idiom(r)
+            origin, applied = "idiom", ["idiom"]
+        elif r.random() < 0.2:
             # package-idiom printer, restricted to shapes the fixtures witness (no parentheses around the body)
             for _ in range(12):
                 doc, text = D.make(r.randrange(2**40), with_ident_env=True)
@@ -332,7 +366,7 @@ def run_shard(sh):
         case = {"text": text, "origin": origin, "transforms": applied}
         fails = judge(text)
         nontriv = len(applied) >= 3 and ("#" in text or "\n\n" in text)
-        if origin == "printer":
+        if origin in ("printer", "idiom"):
             nontriv = "#" in text or "\n\n" in text
         nb = text.count(" = ")
         sh.record(case, nontriv, ["origin:" + origin.split("::")[-1][:40], f"transforms:{min(len(applied), 10)}", f"bindings:{min(nb // 10 * 10, 80)}"] + ["t:" + a for a in set(applied)])
